@@ -2,6 +2,7 @@ package sym
 
 import (
 	"fmt"
+	"os/exec"
 	"go/types"
 	"go/ast"
 	"go/parser"
@@ -132,9 +133,48 @@ func ParseHarnessFile(path string) (*HarnessFile, error) {
 	return hf, nil
 }
 
+// DepWork is the scratch directory where dependency modules that carry a harness are copied
+// (the go command ignores overlays inside the module cache). NativeOverlay lists the extra
+// overlay entries (go.mod with the replace directive) that native runs need as well.
+var (
+	DepWork       = ""
+	NativeOverlay = map[string]string{}
+	pkgDirCache   = map[string]string{}
+	goModExtra    = ""
+)
+
 func pkgDir(repo, pkgPath string) string {
-	rel := strings.TrimPrefix(strings.TrimPrefix(pkgPath, ModulePath), "/")
-	return filepath.Join(repo, rel)
+	if pkgPath == ModulePath || strings.HasPrefix(pkgPath, ModulePath+"/") {
+		rel := strings.TrimPrefix(strings.TrimPrefix(pkgPath, ModulePath), "/")
+		return filepath.Join(repo, rel)
+	}
+	if d, ok := pkgDirCache[pkgPath]; ok {
+		return d
+	}
+	cmd := exec.Command("go", "list", "-f", "{{.Module.Path}}\n{{.Module.Dir}}\n{{.Dir}}", pkgPath)
+	cmd.Dir = repo
+	cmd.Env = append(os.Environ(), "GOFLAGS=-mod=mod", "GOPROXY=off")
+	out, err := cmd.Output()
+	if err != nil {
+		panic(fmt.Sprintf("go list %s: %v", pkgPath, err))
+	}
+	parts := strings.Split(strings.TrimSpace(string(out)), "\n")
+	if len(parts) != 3 || DepWork == "" {
+		panic(fmt.Sprintf("go list %s: unexpected output %q", pkgPath, out))
+	}
+	modPath, modDir, dir := parts[0], parts[1], parts[2]
+	dst := filepath.Join(DepWork, "dep", sanitize(modPath))
+	if _, err := os.Stat(dst); err != nil {
+		os.MkdirAll(filepath.Dir(dst), 0o755)
+		if out, err := exec.Command("cp", "-r", modDir, dst).CombinedOutput(); err != nil {
+			panic(fmt.Sprintf("copy %s: %v %s", modDir, err, out))
+		}
+		exec.Command("chmod", "-R", "u+w", dst).Run()
+		goModExtra += fmt.Sprintf("\nreplace %s => %s\n", modPath, dst)
+	}
+	d := filepath.Join(dst, strings.TrimPrefix(dir, modDir))
+	pkgDirCache[pkgPath] = d
+	return d
 }
 
 // Loaded is the result of loading the repository with harness overlays.
@@ -172,6 +212,17 @@ func Load(repo string, files []*HarnessFile, extraOverlay map[string][]byte) (*L
 	}
 	for k, v := range extraOverlay {
 		overlay[k] = v
+	}
+	if goModExtra != "" {
+		gm, err := os.ReadFile(filepath.Join(repo, "go.mod"))
+		if err != nil {
+			return nil, err
+		}
+		content := append(gm, []byte(goModExtra)...)
+		overlay[filepath.Join(repo, "go.mod")] = content
+		real := filepath.Join(DepWork, "go.mod.overlay")
+		os.WriteFile(real, content, 0o644)
+		NativeOverlay[filepath.Join(repo, "go.mod")] = real
 	}
 	sort.Strings(patterns)
 	cfg := &packages.Config{
